@@ -301,3 +301,76 @@ func TestC16Wire(t *testing.T) {
 		ev.Case(evid.Hash(bits[:], legacy), len(definedSet(bits)) > 0, "wire:"+lab)
 	})
 }
+
+// TestC16Dir: a whole account directory, legacy and named files mixed in every file order:
+// each account loads to exactly the privileges of its own file (the load of one file must
+// not depend on the files loaded before it), on the migrating start and on the next one.
+func TestC16Dir(t *testing.T) {
+	ev := evid.New("C16", "TestC16Dir")
+	defer ev.Flush()
+	rapid.Check(t, func(rt *rapid.T) {
+		n := rapid.IntRange(2, 6).Draw(rt, "accounts")
+		type ac struct {
+			login  string
+			bits   hlref.Access
+			legacy bool
+		}
+		var acs []ac
+		used := map[string]bool{}
+		nLegacy := 0
+		for i := 0; i < n; i++ {
+			login := rapid.StringMatching("[a-e]{1,3}").Filter(func(s string) bool { return !used[s] }).Draw(rt, fmt.Sprintf("login%d", i))
+			used[login] = true
+			var bits hlref.Access
+			switch rapid.IntRange(0, 3).Draw(rt, fmt.Sprintf("kind%d", i)) {
+			case 0:
+				bits = hlref.Access{}
+			case 1:
+				bits = hlref.AccessOf(rapid.SampledFrom(hlref.DefinedPrivs).Draw(rt, fmt.Sprintf("bit%d", i)))
+			default:
+				bits = genAccess(rt, fmt.Sprintf("bits%d", i)).Defined()
+			}
+			leg := rapid.Bool().Draw(rt, fmt.Sprintf("legacy%d", i))
+			if leg {
+				nLegacy++
+			}
+			acs = append(acs, ac{login, bits, leg})
+		}
+		dir, err := os.MkdirTemp("", "c16dir")
+		if err != nil {
+			rt.Fatalf("harness: %v", err)
+		}
+		defer os.RemoveAll(dir)
+		for _, a := range acs {
+			data := hlsim.AccountYAML(hlsim.AccountSpec{Login: a.login, Name: "N " + a.login, Password: "pw", Access: a.bits})
+			if a.legacy {
+				data = legacyYAML(a.login, a.bits)
+			}
+			if err := os.WriteFile(filepath.Join(dir, a.login+".yaml"), data, 0o644); err != nil {
+				rt.Fatalf("harness: %v", err)
+			}
+		}
+		for round := 1; round <= 2; round++ {
+			am, err := verifhooks.NewYAMLAccountManager(dir)
+			if err != nil {
+				rt.Fatalf("start %d on the directory: %v", round, err)
+			}
+			for _, a := range acs {
+				got := am.Get(a.login)
+				if got == nil {
+					rt.Fatalf("start %d: account %q not loaded", round, a.login)
+				}
+				if g := hlref.Access(got.Access); g != a.bits.Defined() {
+					rt.Fatalf("start %d: account %q (legacy form: %v) loaded with privileges %v, its file names %v; directory: %+v", round, a.login, a.legacy, definedSet(g), definedSet(a.bits.Defined()), acs)
+				}
+			}
+			if len(am.List()) != len(acs) {
+				rt.Fatalf("start %d: %d accounts loaded from %d files", round, len(am.List()), len(acs))
+			}
+		}
+		ev.Case(evid.Hash(fmt.Sprint(acs)), nLegacy > 0 && nLegacy < n, fmt.Sprintf("legacy:%d/%d", nLegacy, n))
+		if nLegacy > 0 && nLegacy < n && ev.WantSample() {
+			ev.Sample(map[string]any{"accounts": fmt.Sprintf("%+v", acs)})
+		}
+	})
+}
